@@ -231,6 +231,10 @@ func writeTree(root string, files []c17file, r *rand.Rand, order []int, corrupt 
 		f := files[i]
 		tree := map[string]interface{}{}
 		for n, p := range f.pipes {
+			if reflect.DeepEqual(p, definition.PipelineDef{}) {
+				tree[n] = []interface{}{nil, map[string]interface{}{}, nil}[r.Intn(3)]
+				continue
+			}
 			tree[n] = yamlTree(r, p)
 		}
 		if corrupt != nil {
@@ -297,6 +301,12 @@ func c17LoadCase(c *CaseCtx) *CaseResult {
 			}
 			used[n] = true
 			f.pipes[n] = c17pipeline(r)
+		}
+		if c.Idx%3 == 0 && r.Intn(4) == 0 {
+			// a pipeline that says nothing at all - written as `name:` (YAML null), `name: ~` or `name: {}` - is a pipeline
+			// with every default (concurrency 1) and no tasks (seed C17-n: defaults applied by a custom unmarshaller, which
+			// yaml.v2 does not call for a null node)
+			f.pipes[fmt.Sprintf("says_nothing_%d", i)] = definition.PipelineDef{}
 		}
 		files = append(files, f)
 	}
